@@ -27,8 +27,9 @@ CLASSES = {'delivery', 'overread', 'overread-after-nul', 'fatal', 'hang', 'prema
 BUF_SIZES = [1, 2, 3, 4, 5, 6, 7, 8, 9, 15, 16, 17, 63, 16384]
 
 
-def gen_scn(rng):
-    sc = scenario.gen_scenario(rng, forbid=('vtrail',), want={'flavors': ['nr', 'nr', 'r', 'r', 'c99']})
+def gen_scn(rng, idx=0):
+    tables = scenario.TABLE_OPTS[idx % len(scenario.TABLE_OPTS)]
+    sc = scenario.gen_scenario(rng, forbid=('vtrail',), want={'flavors': ['nr', 'nr', 'r', 'r', 'c99'], 'tables': tables})
     sc.buf_size = None
     return sc
 
@@ -152,7 +153,7 @@ def work(ctx, idx):
     wr = WorkResult()
     cfg = TIERS[ctx.tier]
     rng = ctx.rng('scn', idx)
-    sc = gen_scn(rng)
+    sc = gen_scn(rng, idx)
     b = ctx.build(sc)
     if not b.ok:
         if b.stage == 'flex':
